@@ -62,6 +62,14 @@ def parseCondItems : Nat → List String → Option (Cond × List String)
         match parseCondItems fuel rest1 with
         | none => none
         | some (r, rest2) => some (if it = "A" then .and l r else .or l r, rest2)
+    else if it.startsWith "R:" ∨ it.startsWith "NR:" then
+      -- R:<hexkey>:<hexv1>+<hexv2>…  =  key =~ /^(?:v1|v2|…)$/ ;  NR = !~
+      match it.splitOn ":" with
+      | [op, k, vs] =>
+        match hexDecode k, (vs.splitOn "+").mapM hexDecode with
+        | some kb, some vl => if vl.contains [] then none else some (.re kb (op = "NR") vl, rest)
+        | _, _ => none
+      | _ => none
     else (parseRule it).map fun (k, neq, v) => (.cmp k neq v, rest)
 
 def parseCond (s : String) : Option (Option Cond) :=
@@ -74,8 +82,16 @@ def parseCond (s : String) : Option (Option Cond) :=
 /-- keys of a condition -/
 def Cond.keys : Cond → List Bytes
   | .cmp k _ _ => [k]
+  | .re k _ _ => [k]
   | .and l r => l.keys ++ r.keys
   | .or l r => l.keys ++ r.keys
+
+/-- regular-expression leaves (only MeasurementNames conditions carry them) -/
+def Cond.hasRe : Cond → Bool
+  | .cmp .. => false
+  | .re .. => true
+  | .and l r => l.hasRe || r.hasRe
+  | .or l r => l.hasRe || r.hasRe
 
 /-- a key starting with `_` other than `_name` (system names), or the pseudo key `value` -/
 def reservedKey (allowName : Bool) (k : Bytes) : Bool :=
@@ -141,7 +157,7 @@ def parseOp : List String → Option Op
     if op ≠ "tk" ∧ op ≠ "tv" then none else
     match parseAuth a, parseNats shs, parseClause nc, parseClause kc, parseCond f with
     | some au, some ids, some n, some k, some fo =>
-      if ids = [] ∨ ((fo.map (·.keys)).getD [] |>.any (reservedKey false)) then none
+      if ids = [] ∨ ((fo.map (·.keys)).getD [] |>.any (reservedKey false)) ∨ (fo.map (·.hasRe)).getD false then none
       else if op = "tk" then some (.tk au ids n k fo) else some (.tv au ids n k fo)
     | _, _, _, _, _ => none
   | _ => none
